@@ -50,10 +50,71 @@ class Check(PropertyCheck):
             scns.append(scn)
         return scns, hist
 
+    def gen_stdout_mixes(self):
+        """-d -c -f (copy mode for non-bzip2 operands) and -c invocations whose operand lists mix valid, non-bzip2 (sizes
+        0..5, 100, 70000), near-miss headers and corrupt files in every order: state that work() leaves behind for the next
+        operand (request_close, finish, eof, slot counters, granules set by copy() versus set_memory_constraints())."""
+        r = self.rng
+        t1, t2 = 1_234_567_890_123_456_789, 1_111_111_111_000_000_001
+
+        def noise(n):
+            b = r.bytes(n)
+            return (b"x" + b[1:]) if b[:2] == b"BZ" else b
+        plain_small, plain_big = b"small text\n" * 7, bytes(r.choice(b"abcdefgh \n") for _ in range(70000))
+        z_small, z_big, z_empty = (self.codec.get("C", x)[1] for x in (plain_small, plain_big, b""))
+        bad = bytearray(z_small)
+        bad[len(bad) // 2] ^= 0x20
+        pool_d = {
+            "bz-small": z_small, "bz-big": z_big, "bz-empty": z_empty,
+            "raw0": b"", "raw1": noise(1), "raw3": noise(3), "raw4": noise(4), "raw5": noise(5), "raw100": noise(100),
+            "raw70000": noise(70000),
+            "near-BZh0": b"BZh0" + noise(40), "near-BZh": b"BZh", "near-BZH9": b"BZH9" + noise(10), "hdr-only": b"BZh9",
+            "corrupt": bytes(bad), "truncated": z_small[:len(z_small) - 7],
+        }
+        pool_c = {"empty": b"", "one": b"q", "small": plain_small, "noise100": noise(100), "big": plain_big, "bz": z_small}
+        if self.tier != "quick":
+            pool_c["multiblock"] = bytes(r.choice(b"ab") for _ in range(1_000_000))
+        out = []
+
+        def scn(pool, kinds, flags):
+            names, inodes, ops = {}, {}, []
+            for i, k in enumerate(kinds):
+                nm = "f%d.%s" % (i, "dat")
+                names[nm] = ("L", 10 + i)
+                inodes[10 + i] = {"kind": "r", "mode": 0o644, "uid": 0, "gid": 0, "atime": t1, "mtime": t2, "data": pool[k]}
+                ops.append(nm)
+            return {"names": names, "inodes": inodes, "ops": ops, "flags": flags, "plan": None, "kinds": list(kinds)}
+        dk, ck = list(pool_d), list(pool_c)
+        # every ordered pair in copy-capable decompression; flag spellings alternate
+        for i, a in enumerate(dk):
+            for j, b2 in enumerate(dk):
+                out.append(scn(pool_d, [a, b2], [["-d", "-c", "-f"], ["-dcf"], ["-f", "-k", "-dc"]][(i + j) % 3]))
+        for a in ck:
+            for b2 in ck:
+                out.append(scn(pool_c, [a, b2], r.choice([["-c"], ["-c", "-f"], ["-kc"]])))
+        ntri = 60 if self.tier == "quick" else 900
+        for _ in range(ntri):
+            k = r.choice([3, 3, 3, 4, 5])
+            if r.chance(3, 4):
+                kinds = [r.choice(dk) for _ in range(k)]
+                if "bz-small" not in kinds and "bz-big" not in kinds:
+                    kinds[r.below(k - 1)] = r.choice(["bz-small", "bz-big"])      # a real expansion before something else
+                out.append(scn(pool_d, kinds, r.choice([["-d", "-c", "-f"], ["-dcf"]])))
+            else:
+                out.append(scn(pool_c, [r.choice(ck) for _ in range(k)], ["-c"]))
+        # without -f the same lists (non-bzip2 operands are fatal): the prefix before the failure must agree
+        for _ in range(20 if self.tier == "quick" else 200):
+            out.append(scn(pool_d, [r.choice(dk) for _ in range(r.choice([2, 3]))], ["-d", "-c"]))
+        return out
+
     def correspond(self):
         self.setup()
         n = 250 if self.tier == "quick" else 3000
+        mixes = self.gen_stdout_mixes()
         scns, hist = self.gen_multi(n)
+        hist["stdout_mixes"] = len(mixes)
+        self.nmix = len(mixes)
+        scns = mixes + scns
         texts = []
         for i, scn in enumerate(scns):
             cfg = fl.cfg_of_flags(scn["flags"])
@@ -98,13 +159,14 @@ class Check(PropertyCheck):
         d = os.path.join(self.scn_dir, "sep%d" % idx)
         fl.materialise(scn, d)
         t0 = time.time_ns() - 2_000_000_000
-        rcs, outs = [], b""
+        rcs, outs, done_out = [], b"", b""
         for op in scn["ops"]:
             r = fl.invoke(self.exe, fl.argv_of(scn, [op]), d)
             rcs.append(r["outcome"])
             outs += r["out"]
             if r["outcome"] not in ("E0", "E4"):
                 break
+            done_out += r["out"]
         sep_listing = fl.real_listing(d, t0)
         bad = [x for x in rcs if x not in ("E0", "E4")]
         want = bad[0] if bad else ("E4" if "E4" in rcs else "E0")
@@ -125,7 +187,12 @@ class Check(PropertyCheck):
                     diffs.append("path %r: %s combined %s, separate %s" % (p, f, fl.short(x).get(f, fl.short(x).get("sha")),
                                                                         fl.short(y).get(f, fl.short(y).get("sha"))))
         if not bad and combined["out"] != outs:
-            diffs.append("stdout: combined %d bytes, separate %d bytes" % (len(combined["out"]), len(outs)))
+            diffs.append("stdout: combined %d bytes, separate %d bytes (first difference at byte %d)" % (
+                len(combined["out"]), len(outs), next((i for i, (x, y) in enumerate(zip(combined["out"], outs)) if x != y),
+                                                      min(len(combined["out"]), len(outs)))))
+        if bad and not combined["out"].startswith(done_out):
+            diffs.append("stdout: the output of the operands completed before the fatal error (%d bytes) is not a prefix of the "
+                         "combined output (%d bytes)" % (len(done_out), len(combined["out"])))
         return diffs, rcs
 
     def direct_on(self, scns, reals, limit):
@@ -140,9 +207,11 @@ class Check(PropertyCheck):
             if diffs:
                 scn = scns[i]
                 key = "c18:combined-vs-separate:" + diffs[0].split(":")[0].split(" ")[0]
-                viols.append(Violation(key, "lbzip2 %s: one invocation differs from one invocation per operand: %s" % (
-                    " ".join(fl.argv_of(scn)), "; ".join(diffs[:3])),
-                    {"scenario": fl.scn_brief(scn), "argv": fl.argv_of(scn), "diffs": diffs[:10], "separate_status": rcs,
+                viols.append(Violation(key, "lbzip2 %s%s: one invocation differs from one invocation per operand: %s" % (
+                    " ".join(fl.argv_of(scn)), (" (operands: %s)" % ", ".join(scn["kinds"])) if scn.get("kinds") else "",
+                    "; ".join(diffs[:3])),
+                    {"scenario": fl.scn_brief(scn), "argv": fl.argv_of(scn), "operand_kinds": scn.get("kinds"),
+                     "diffs": diffs[:10], "separate_status": rcs,
                      "combined_status": reals[i]["outcome"]}))
         seen, out = set(), []
         for v in viols:
@@ -154,7 +223,7 @@ class Check(PropertyCheck):
     def direct(self):
         if not hasattr(self, "scns"):
             return []
-        return self.direct_on(self.scns, self.reals, 150 if self.tier == "quick" else 1500) + self.findings()
+        return self.direct_on(self.scns, self.reals, getattr(self, "nmix", 0) + (150 if self.tier == "quick" else 1500)) + self.findings()
 
     def findings(self):
         """Confirmed deviation from the property text, reported with a fixed key when reproduced (known_findings.json)."""
@@ -177,7 +246,7 @@ class Check(PropertyCheck):
         self.setup()
         scns = [fl.scn_from_brief(dd["scenario"]) for dd in getattr(self, "disagreements", [])[:50]]
         more, _ = self.gen_multi(600)
-        scns += more
+        scns += self.gen_stdout_mixes() + more
 
         def one(i):
             return fl.run_real(self.exe, scns[i], os.path.join(self.scn_dir, "s%d" % i))
